@@ -47,7 +47,7 @@ CHECKS.update({
                      "of target factors equals the product of source factors for every named assignment, partition functions agree, and the target is "
                      "structurally valid (moral graph, tree, running intersection, scope cover); triangulation heuristics H1-H6/explicit orders "
                      "checked against the chord definition on concrete graphs <=5 nodes.",
-                note="Bounds: <=4 variables (5 for triangulation), cards<=3. Two known findings are listed in known_findings.txt.", ref="5/C14"),
+                note="Bounds: <=4 variables (5 for triangulation), cards<=3. Two known findings (three keys) are listed in known_findings.txt.", ref="5/C14"),
 })
 CHECKS["C08"] = dict(
     text="(1) solver lemma: for ALL DAGs on n<=4 (5 thorough) nodes and all (x,y,Z) the Bayes-ball reachability encoding, the trail-based "
@@ -64,7 +64,8 @@ CHECKS["C12"] = dict(
          "so paths are CI-answer patterns, and on each path z3 proves over ALL consistent graphs: skeleton = adjacency, recorded separating sets "
          "d-separate, every directed PDAG edge is compelled, every undirected edge is reversible (two sat queries), no directed cycle; a returned DAG "
          "satisfies every answer. The independencies= entry point and PDAG.to_dag (z3-decided extendability, brute-force cross-check) are explored eagerly.",
-    note="Bounds: n<=4 (5 in thorough), max_cond_vars=n, hash seeds 0,1; statistical CI tests are outside (C19).", ref="5/C12")
+    note="Bounds: n<=4 (5 in thorough), max_cond_vars=n, hash seeds 0,1; statistical CI tests are the subject of C19. One known finding (thorough tier): the "
+         "independencies= route inherits the closure defect recorded under C18 on >= 4 variables.", ref="5/C12")
 CHECKS["C18"] = dict(
     text="(a) is_iequivalent/get_immoralities on all pairs of 3-node DAGs and same-skeleton 4-node pairs against skeleton+v-structures (cross-checked with "
          "the d-separation oracle); (b) Independencies.closure/entails/is_equivalent against the least model of a Horn-clause encoding of the semi-graphoid "
@@ -88,7 +89,8 @@ CHECKS["C13"] = dict(
          "symbols; do() is checked edge-by-edge and entry-by-entry (other CPDs untouched, original untouched). The back-door/front-door validity "
          "tests and enumerations are compared, on every DAG with <=4 nodes and every (X,Y,Z among non-descendants), with the path-based criterion "
          "evaluated by the d-separation oracle on the graph with X's outgoing edges removed.",
-    note="Bounds: <=4 nodes, do-sets of size <=2, positive entries, string node names; one recorded known finding (joint interventions).", ref="5/C13")
+    note="Bounds: <=4 nodes, do-sets of size <=2, positive entries, string node names; two recorded known findings (joint interventions; minimal "
+         "adjustment set containing a mediator under a latent confounder).", ref="5/C13")
 CHECKS["C15"] = dict(
     text="One (quick: also sampled two-) step exploration from every enumerated valid base state: BayesianNetwork over <=3 nodes with symbolic CPD "
          "tables, every editing operation with valid and invalid arguments; after each step: no directed cycle, a rejected single operation left nodes/"
@@ -109,7 +111,9 @@ CHECKS["C16"] = dict(
          "evidence) run with all CPD entries symbolic: every answer in the sequence is shown equal to the joint oracle (= a fresh engine's answer) for "
          "all table values, and the model handed to the engine is entry-identical (same objects) after every call. The same question under permuted "
          "node/edge/CPD insertion orders, 4 node-name and 6 state-name styles and two hash seeds is compared with the same oracle after relabelling. "
-         "Scoring, estimation, structure search, conversion, export and sampling calls are checked for input purity and repeatability on concrete inputs.",
+         "Scoring, estimation, structure search, conversion, export and sampling calls are checked for input purity and repeatability on concrete inputs. "
+         "PC-stable runs with an ARBITRARY conditional-independence oracle (one free Boolean per question, lazily forked): its skeleton is shown "
+         "independent of the order in which the variables are listed, for every answer pattern on 3 variables and a bounded exploration on 4.",
     note="Bounds: <=4 nodes, sequences of length 3 (4 thorough); torch backend and dtype switching are outside the claim.", ref="5/C16")
 CHECKS["C10"] = dict(
     text="(a) StructureScore.score, ScoreCache.score/local_score/structure_prior(_ratio), the BDs structure prior and metrics-level scoring run with one "
@@ -119,8 +123,8 @@ CHECKS["C10"] = dict(
          "shown equal (congruence + arithmetic) to the published closed form written with the same uninterpreted functions, for every parent listing "
          "order; BDeu/BIC/AIC score equivalence of X->Y and Y->X from one symbolic joint count table. Every scenario is re-run on a real pandas frame "
          "with integer counts and the real special functions (concrete twin), which validates the count-table stub.",
-    note="Partial: numeric values of gammaln/log and pandas counting itself are outside the solver claim (covered only by the concrete twin); BDs local "
-         "score and the Gaussian scores are not claimed. Bounds: child with <=2 parents, cards<=3.", ref="5/C10")
+    note="Partial: numeric values of gammaln/log and pandas counting itself are outside the solver claim (covered only by the concrete twin); the Gaussian "
+         "scores are not claimed; BDs is compared with Scutari's definition (one recorded known finding). Bounds: child with <=2 parents, cards<=3.", ref="5/C10")
 CHECKS["C06"] = dict(
     text="The weighted estimation path (BaseEstimator.state_counts through pandas groupby/sum/unstack/reindex/fillna, MaximumLikelihoodEstimator, "
          "BayesianEstimator with K2 / BDeu / Dirichlet priors, BayesianNetwork.fit and fit_update) runs with a SYMBOLIC weight per data row, symbolic "
